@@ -10,6 +10,7 @@ func (cw *CodeWriter) flushPending() {
 			cw.writeIndent()
 		} else {
 			cw.Builder.WriteRune(ch)
+			cw.advanceMapper(string(ch))
 		}
 	}
 	cw.clearPending()
@@ -17,6 +18,7 @@ func (cw *CodeWriter) flushPending() {
 
 func (cw *CodeWriter) writeNewline() {
 	cw.Builder.WriteRune('\n')
+	cw.advanceMapper("\n")
 }
 
 func (cw *CodeWriter) writeIndent() {
@@ -26,6 +28,7 @@ func (cw *CodeWriter) writeIndent() {
 	}
 	for i := 0; i < cw.IndentLevel; i++ {
 		cw.Builder.WriteString(indent)
+		cw.advanceMapper(indent)
 	}
 }
 
